@@ -74,6 +74,8 @@ pub fn conj_atoms() -> Vec<&'static str> {
         "p", "q(X)", "q(X$i)", "q(Y)", "X = Y", "Y = X", "X = a", "X$i = a", "X = X$i", "X$i = X",
         "X$i = Y$i", "Y$i = X$i", "X = Y$i", "X$i = 1", "X$i = X$i + 1", "X$i = Y$i + 1",
         "not q(X)", "X$s = a", "X = X$s",
+        // chained comparisons that start with an equation (one atomic formula, not an equation)
+        "X$i = Y < 2", "Y$i = Y < 2", "X = Y != a", "X$i = X <= Y$i",
     ]
 }
 
@@ -321,6 +323,15 @@ pub fn family_i() -> Vec<String> {
                     }
                 }
             }
+        }
+    }
+    // the defined variable is itself the first fresh-name candidate of the re-binding quantifier and does not
+    // occur in its body
+    for (x, y, body) in [("Y1", "Y", "q(Y)"), ("Y1", "Y", "q(Y) or q(X)"), ("Y1$i", "Y$i", "q(Y$i)"), ("Y2", "Y1", "q(Y1) and q(Y)")] {
+        for iq in ["exists", "forall"] {
+            out.push(format!("exists {x} ({x} = {y} and {iq} {y} ({body}))"));
+            out.push(format!("forall {x} ({x} = {y} -> {iq} {y} ({body}))"));
+            out.push(format!("exists {x} ({iq} {y} ({body}) and {y} = {x})"));
         }
     }
     out
